@@ -20,4 +20,7 @@ NOYIELD="${VERIF_NOYIELD:-message.go,nip11.go,server.go,event_matcher.go,query.g
 mkdir -p "$W/sim" && cp -r $V/sim/. "$W/sim/" || fail "copy sim"
 [ -f "$W/sim/go.sum" ] || cp "$REPO/go.sum" "$W/sim/go.sum"
 (cd "$W/sim" && go test -c -trimpath -overlay $V/build/rt/overlay.json -o "$W/sim.test" ./props) >"$W/build.log" 2>&1 || { cat "$W/build.log" >&2; fail "go test -c"; }
+if [ -n "${VERIF_RACE:-}" ]; then
+  (cd "$W/sim" && go test -c -race -trimpath -overlay $V/build/rt/overlay.json -o "$W/sim.race.test" ./props) >"$W/build-race.log" 2>&1 || { cat "$W/build-race.log" >&2; fail "go test -c -race"; }
+fi
 exit 0
